@@ -73,6 +73,8 @@ def gen_case(prop, rng, tier, i):
             r = rng.random()
             if r < 0.06:
                 script.append(["env", "release"])
+            elif r < 0.10:
+                script.append(["env", "swap"])          # `harness.wmod.cur` is rebound between two commands
             else:
                 script.append(["line", 0, G.session_line(rng, ctx["cmds"], ctx["flags"], (0.8, 0.17, 0.03))])
         return {"mode": "tv", "cls": cls, "width": rng.choice([60, 80, 100]), "nsess": 1, "script": script}
